@@ -1,8 +1,25 @@
 """C10 — see DESIGN.md §4."""
 from ..spec import run_specs
+from ..unsafe_audit import run_U
+from ..reloc import run_relocate_reader
+from ..witness import run_witnesses
 
 EXPLANATION = 'Unsafe audit of the shared-buffer reader (private fields, stores only in new/skip/truncate behind asserts, from_raw_parts lengths), delegation shape of RelocateReader, Reader trait parametricity premise, and compile-fail witnesses (EndianRcSlice !Send, sub-reader cannot outlive buffer, private range field). Observational equality of reader kinds is NOT decided.'
 
 
+def run_reader_premise(rep, g):
+    rep.rule('D-reader-trait', 'parametricity premise: trait Reader has no associated function that produces Self without a self receiver, '
+             'so generic parsing code can obtain a reader only by clone/split of one it was given')
+    tr = g.traits.get('read::reader::Reader')
+    bad = [it['name'] for it in tr['items'] if it['kind'] == 'Fn' and not it['has_self'] and 'Self' in it['sig'].split('->')[-1]]
+    rep.check('D-reader-trait', 'no-constructor', not bad, 'constructor-like trait items: %s' % bad, why='no item returns Self without a receiver')
+    rep.floor('D-reader-trait', 'items of trait Reader', len(tr['items']), 40)
+
+
 def run(rep, ctx):
+    g = ctx.g
     run_specs(rep, ctx, 'C10')
+    run_U(rep, g)
+    run_relocate_reader(rep, g)
+    run_reader_premise(rep, g)
+    run_witnesses(rep, ['RcReaderIsNotSend', 'SubReaderCannotOutliveBuffer', 'RangeFieldIsPrivate', 'ReaderHasNoConstructor'])
